@@ -155,6 +155,31 @@ Section Expression.
         bind_arguments r (S i) arity bindings'
     end.
 
+  (* the function body: on failure the error's location is fixed first, then
+     the frame is popped (expression.rs, after the frame-leak fix) *)
+  Definition call_body : M value :=
+    fun s =>
+      match rec s with
+      | (Ok v, s1) =>
+          match pop_function_call s1 with
+          | (Ok _, s2) => (Ok v, s2)
+          | (Err e l, s2) => (Err e l, s2)
+          | (Panic p, s2) => (Panic p, s2)
+          | (OutOfFuel, s2) => (OutOfFuel, s2)
+          | (OracleMiss, s2) => (OracleMiss, s2)
+          end
+      | (Err e l, s1) =>
+          let l' := populate_error_location e l s1 in
+          match pop_function_call s1 with
+          | (Ok _, s2) => (Err e l', s2)
+          | (Err e2 l2, s2) => (Err e2 l2, s2)
+          | (Panic p, s2) => (Panic p, s2)
+          | (OutOfFuel, s2) => (OutOfFuel, s2)
+          | (OracleMiss, s2) => (OracleMiss, s2)
+          end
+      | other => other
+      end.
+
   Definition user_function_call (name : bytes) : M (option value) :=
     fs <- get functions ;;
     match alist_get name fs with
@@ -164,8 +189,7 @@ Section Expression.
         bindings <- bind_arguments (fn_args d) 0 (length (fn_args d)) [] ;;
         expect_next_token TRightParen ;;;
         push_function_call name bindings ;;;
-        v <- rec ;;
-        pop_function_call ;;;
+        v <- call_body ;;
         ret (Some v)
     end.
 
@@ -251,10 +275,13 @@ Section Expression.
     tier (accept_as TOr tt) logical_and_expression (fun _ => eval_or).
 End Expression.
 
-Fixpoint evaluate_expression (fuel : nat) : M value :=
+(* evaluate_expression: the nesting guard (program.rs enter/exit_nested_evaluation)
+   around the loosest tier.  [n] is the nesting counter at the call. *)
+Fixpoint evaluate_expression (fuel : nat) (n : nat) : M value :=
   match fuel with
   | O => out_of_fuel
-  | S f => logical_or_expression f (evaluate_expression f)
+  | S f => if Nat.eqb n max_nesting then fail EStackOverflow
+           else logical_or_expression f (evaluate_expression f (S n))
   end.
 
 (* ------------------------------------------------------------------ *)
@@ -264,9 +291,10 @@ Record lvalue := mklv { lv_sym : bytes; lv_index : option (list N) }.
 
 Section Statement.
   Variable fuel : nat.
+  Variable nest : nat.            (* nesting counter inside this statement *)
   Variable rec_stmt : M unit.     (* evaluate_statement, one level down *)
 
-  Definition expr : M value := evaluate_expression fuel.
+  Definition expr : M value := evaluate_expression fuel nest.
 
   Definition parse_optional_array_index : M (option (list N)) :=
     p <- peek_is TLeftParen ;;
@@ -503,13 +531,17 @@ Section Statement.
     | Some (TData _) => ret tt
     | Some TLet => evaluate_let_statement
     | Some (TSymbol sym) => evaluate_assignment_statement sym
+    | Some TElse =>
+        b <- is_else_of_then_clause ;;
+        if b then discard_remaining_tokens else fail EUnexpectedToken
     | Some _ => fail EUnexpectedToken
     | None => ret tt
     end.
 End Statement.
 
-Fixpoint evaluate_statement (fuel : nat) : M unit :=
+Fixpoint evaluate_statement (fuel : nat) (n : nat) : M unit :=
   match fuel with
   | O => out_of_fuel
-  | S f => evaluate_statement_body f (evaluate_statement f)
+  | S f => if Nat.eqb n max_nesting then fail EStackOverflow
+           else evaluate_statement_body f (S n) (evaluate_statement f (S n))
   end.
